@@ -209,6 +209,21 @@ Theorem C06_profile_conversion_length :
   forall ramp ct, List.length (Ramp.convert_ramp ramp ct) = Ramp.ceil_nat (Ramp.qnat (List.length ramp) / ct).
 Proof. exact Ramp.convert_ramp_length. Qed.
 Print Assumptions C06_profile_conversion_length.
+(* where the grid is k times finer than the profile (ct = 1/k) the interpolated profile takes the given value i exactly at the end of
+   profile step i, i.e. at grid step (i+1) k (index (i+1) k - 1) *)
+Theorem C06_profile_conversion_exact_at_knots :
+  forall ramp (k : nat) i, (0 < k)%nat -> (i < List.length ramp)%nat ->
+  nth (S i * k - 1) (Ramp.convert_fine ramp (/ Ramp.qnat k)) 0 == nth i ramp 0.
+Proof. exact Ramp.convert_fine_at_knots. Qed.
+Print Assumptions C06_profile_conversion_exact_at_knots.
+(* where a grid step is exactly m profile steps long (ct = m) grid step i carries the plain mean of the m profile values it covers
+   (the profile padded with its last value) *)
+Theorem C06_profile_conversion_exact_means :
+  forall ramp (m : nat) i, (0 < m)%nat -> (i < Ramp.ceil_nat (Ramp.qnat (List.length ramp) / Ramp.qnat m))%nat ->
+  nth i (Ramp.convert_coarse ramp (Ramp.qnat m)) 0 ==
+  qsum (map (fun j => nth j (ramp ++ repeat (last ramp 0) m) (last ramp 0)) (seq (i * m) m)) / Ramp.qnat m.
+Proof. exact Ramp.convert_coarse_exact_means. Qed.
+Print Assumptions C06_profile_conversion_exact_means.
 Example C06_profile_conversion_nonvacuous :
   Ramp.convert_ramp [1; 3; 4] (1#2) = [1; 1; 2; 3; 7 # 2; 4] /\ Ramp.convert_ramp [1; 3; 4; 8; 2] (3#2) = [5 # 3; 11 # 3; 6; 2] /\
   Ramp.convert_ramp [1; 3; 4] 1 = [1; 3; 4] /\ Ramp.within 1 4 [1; 3; 4].
